@@ -195,9 +195,45 @@ func (c *Ctx) rootDerived(v ssa.Value, depth int) (string, bool) {
 			if strings.Contains(leafDescDeep(c, call), "tmpDir.Path") {
 				return "filepath.Join(<root>.tmpDir.Path, ...)", true
 			}
+			// a Join whose first element is itself root-derived (Join cleans: the result is never separator-terminated)
+			if first := variadicElem(call, 0); first != nil {
+				if n, ok := c.rootDerived(first, depth+1); ok {
+					return "filepath.Join(" + n + ", ...)", true
+				}
+			}
 		}
 	}
 	return "", false
+}
+
+// variadicElem returns the value stored as the i-th element of the variadic
+// argument array of call (nil if not found).
+func variadicElem(call *ssa.Call, i int) ssa.Value {
+	for _, a := range call.Call.Args {
+		sl, ok := a.(*ssa.Slice)
+		if !ok {
+			continue
+		}
+		al, ok := sl.X.(*ssa.Alloc)
+		if !ok {
+			continue
+		}
+		for _, ref := range *al.Referrers() {
+			ia, ok := ref.(*ssa.IndexAddr)
+			if !ok {
+				continue
+			}
+			if k, isC := constInt(ia.Index); !isC || int(k) != i {
+				continue
+			}
+			for _, rr := range *ia.Referrers() {
+				if st, ok := rr.(*ssa.Store); ok {
+					return st.Val
+				}
+			}
+		}
+	}
+	return nil
 }
 
 // leafDescDeep renders the origins of all variadic elements of a call.
@@ -314,7 +350,14 @@ func (c *Ctx) rejectsDotDotRel(fn *ssa.Function, p ssa.Value) bool {
 			}
 			walk(h.Call.Args[1], 0)
 			if okPrefix {
-				found = true
+				// "../" alone misses the parent directory itself: then rel == ".." must be tested too
+				bare := false
+				if cst, isC := h.Call.Args[1].(*ssa.Const); isC && cst.Value != nil && constant.StringVal(cst.Value) == ".." {
+					bare = true
+				}
+				if bare || testsEqualDotDot(fn, rel) {
+					found = true
+				}
 			}
 		}
 	}
@@ -370,9 +413,14 @@ func c18R2(c *Ctx, r *Report) {
 	} else {
 		for i, ci := range callsIn(un, "updater.copyFromZipArchive") {
 			dst := ci.Common().Args[1]
-			g := Guard{Name: "entry path below the unpack dir", Truthy: true, Match: func(b ssa.Value) bool {
+			g := Guard{Name: "entry path below the unpack dir (prefix = unpack dir + separator)", Truthy: true, Match: func(b ssa.Value) bool {
 				call, ok := isCallTo(b, "strings.HasPrefix")
-				return ok && (call.Call.Args[0] == dst || sameOrigins(c, call.Call.Args[0], dst))
+				if !ok || !(call.Call.Args[0] == dst || sameOrigins(c, call.Call.Args[0], dst)) {
+					return false
+				}
+				// only a well-formed guard counts: prefix derived from the unpack root and separator-terminated
+				_, isRoot := c.rootDerived(call.Call.Args[1], 0)
+				return isRoot && sepTerminated(call.Call.Args[1], 0)
 			}}
 			c.RequireGuards(r, rule, fmt.Sprintf("%s / extract entry #%d", fnKey(un), i+1), un, ci, g)
 		}
@@ -415,9 +463,29 @@ func c18R2(c *Ctx, r *Report) {
 				_, isRel := isCallTo(ex, "path/filepath.Rel")
 				return isRel
 			}}
+			notParent := Guard{Name: `relative path is not ".."`, Truthy: false, Match: func(b ssa.Value) bool {
+				bo, ok := b.(*ssa.BinOp)
+				if !ok || bo.Op != token.EQL {
+					return false
+				}
+				for _, pair := range [][2]ssa.Value{{bo.X, bo.Y}, {bo.Y, bo.X}} {
+					ex, isEx := pair[0].(*ssa.Extract)
+					cst, isC := pair[1].(*ssa.Const)
+					if isEx && isC && cst.Value != nil && cst.Value.Kind() == constant.String && constant.StringVal(cst.Value) == ".." {
+						if _, isRel := isCallTo(ex, "path/filepath.Rel"); isRel {
+							return true
+						}
+					}
+				}
+				return false
+			}}
 			cleaned, _ := c.canonicalPath(ea.Params[1], 0)
 			if !cleaned {
-				c.RequireGuards(r, rule, fmt.Sprintf("%s / ensure(relative dirs) #%d", fnKey(ea), i+1), ea, ci, notDotDot)
+				gs := []Guard{notDotDot}
+				if !dotDotPrefixCoversParent(ea) {
+					gs = append(gs, notParent)
+				}
+				c.RequireGuards(r, rule, fmt.Sprintf("%s / ensure(relative dirs) #%d", fnKey(ea), i+1), ea, ci, gs...)
 			}
 		}
 	}
@@ -477,4 +545,40 @@ func (c *Ctx) fstreeSafePath(fn *ssa.Function, v ssa.Value, depth int) (bool, st
 		}
 	}
 	return true, ""
+}
+
+// dotDotPrefixCoversParent: fn tests HasPrefix(rel, "..") with the bare ".."
+// (which also covers rel == ".."); with "../" the parent itself needs its own test.
+func dotDotPrefixCoversParent(fn *ssa.Function) bool {
+	covers := false
+	for _, hp := range callsIn(fn, "strings.HasPrefix") {
+		h, ok := hp.(*ssa.Call)
+		if !ok {
+			continue
+		}
+		if ex, isEx := h.Call.Args[0].(*ssa.Extract); isEx {
+			if _, isRel := isCallTo(ex, "path/filepath.Rel"); isRel {
+				if cst, isC := h.Call.Args[1].(*ssa.Const); isC && cst.Value != nil && cst.Value.Kind() == constant.String && constant.StringVal(cst.Value) == ".." {
+					covers = true
+				}
+			}
+		}
+	}
+	return covers
+}
+
+func testsEqualDotDot(fn *ssa.Function, rel ssa.Value) bool {
+	found := false
+	eachInstr(fn, func(in ssa.Instruction) {
+		bo, ok := in.(*ssa.BinOp)
+		if !ok || (bo.Op != token.EQL && bo.Op != token.NEQ) {
+			return
+		}
+		for _, pair := range [][2]ssa.Value{{bo.X, bo.Y}, {bo.Y, bo.X}} {
+			if cst, isC := pair[1].(*ssa.Const); isC && pair[0] == rel && cst.Value != nil && cst.Value.Kind() == constant.String && constant.StringVal(cst.Value) == ".." {
+				found = true
+			}
+		}
+	})
+	return found
 }
